@@ -118,6 +118,7 @@ def main(argv=None):
     ap.add_argument('--no-confirm', action='store_true')
     args = ap.parse_args(argv)
     prop = args.prop.upper()
+    os.environ['VERIF_PROP'] = prop
     seed = int(os.environ.get('VERIF_SEED', '0') or 0)
     sys.path.insert(0, str(core.REPO))
     core.run_dir()      # created before any fork so that every worker's world lives under it
